@@ -1,31 +1,32 @@
 #!/bin/bash
-# usage: tools/confirm_seeded.sh <Cnn> <a|b> "<needs>" [checks that catch it...]
-# Confirms an agent-written seeded defect in a scratch worktree (tests pass with it, demo fails with it and
-# passes without it), then stores it under /verif/seeded/<Cnn>-<x>/ and runs the named checks against it.
+# usage: tools/confirm_seeded.sh <Cnn> <a|b|..> "<needs>" [checks to run against it...]
+# Confirms an agent-written seeded defect (/tmp/mut/<Cnn>/<x>.diff, demo_<x>.py, <x>.txt) in a scratch worktree:
+# the 180 tests pass with it, the demo fails with it and passes without it.  Then stores it under
+# /verif/seeded/<Cnn>-<x>/ and runs the named checks against it (tools/try_mutant.sh).
 ID=$1; X=$2; NEEDS=$3; shift 3
 SRC=/tmp/mut/$ID
-WT=/tmp/confirm_wt_$$
+WT=$(mktemp -d /tmp/confirm_wt_XXXXXX)
 git -C /repo worktree add -q --detach $WT HEAD || exit 9
-cleanup() { git -C /repo worktree remove --force $WT 2>/dev/null; }
+cleanup() { git -C /repo worktree remove --force $WT 2>/dev/null; rm -rf $WT; }
 trap cleanup EXIT
 cd $WT
-git apply $SRC/$X.diff || { echo "PATCH DOES NOT APPLY"; exit 8; }
+git apply $SRC/$X.diff || { echo "$ID-$X PATCH DOES NOT APPLY"; exit 8; }
 T=$(PYTHONPATH=$WT /venv/bin/python -m pytest -q -p no:cacheprovider tests 2>&1 | tail -1)
-PYTHONPATH=$WT /venv/bin/python $SRC/demo_$X.py >/tmp/demo_with.$$ 2>&1; RC_WITH=$?
+PYTHONPATH=$WT timeout 300 /venv/bin/python $SRC/demo_$X.py >/dev/null 2>&1; RC_WITH=$?
 git checkout -q -- .
-PYTHONPATH=$WT /venv/bin/python $SRC/demo_$X.py >/tmp/demo_without.$$ 2>&1; RC_WITHOUT=$?
+PYTHONPATH=$WT timeout 300 /venv/bin/python $SRC/demo_$X.py >/dev/null 2>&1; RC_WITHOUT=$?
 echo "$ID-$X: tests='$T' demo_with=$RC_WITH demo_without=$RC_WITHOUT"
-rm -f /tmp/demo_with.$$ /tmp/demo_without.$$
-case "$T" in *"180 passed"*) ;; *) echo "TESTS DO NOT PASS"; exit 7;; esac
-[ $RC_WITH -ne 0 ] && [ $RC_WITHOUT -eq 0 ] || { echo "DEMO DOES NOT DISCRIMINATE"; exit 6; }
+case "$T" in *"180 passed"*) ;; *) echo "$ID-$X TESTS DO NOT PASS"; exit 7;; esac
+[ $RC_WITH -ne 0 ] && [ $RC_WITHOUT -eq 0 ] || { echo "$ID-$X DEMO DOES NOT DISCRIMINATE"; exit 6; }
 cd /verif
 D=/verif/seeded/$ID-$X
 mkdir -p $D
 cp $SRC/$X.diff $D/patch.diff; cp $SRC/demo_$X.py $D/demo.py; cp $SRC/$X.txt $D/description.txt
 CAUGHT=""
 for p in "$@"; do
-  out=$(tools/try_mutant.sh $D/patch.diff $p 2>&1 | head -1)
-  echo "   $out"
+  out=$(tools/try_mutant.sh $D/patch.diff $p 2>&1 | head -4)
+  echo "   $ID-$X $(echo "$out" | head -1)"
+  echo "$out" | sed -n 2,4p | cut -c1-260 | sed 's/^/      /'
   case "$out" in *"rc=1"*) CAUGHT="$CAUGHT $p";; esac
 done
 python3 - "$ID" "$X" "$NEEDS" "$T" "$RC_WITH" "$RC_WITHOUT" "$CAUGHT" "$*" <<'PY'
